@@ -118,7 +118,10 @@ def run_case(c, module=None):
         try:
             o = op["op"]
             if o == "new":
-                objs[op["name"]] = classes[op["cls"]](**kwargs_for(world, classes, op["cls"], op["vals"], objs), _buffer=bufs[op["buf"]])
+                if op["buf"].startswith("N"):      # a buffer of its own
+                    objs[op["name"]] = classes[op["cls"]](**kwargs_for(world, classes, op["cls"], op["vals"], objs))
+                else:
+                    objs[op["name"]] = classes[op["cls"]](**kwargs_for(world, classes, op["cls"], op["vals"], objs), _buffer=bufs[op["buf"]])
             elif o == "set":
                 tgt = objs[op["obj"]]
                 for pn in op.get("via", []):
@@ -148,7 +151,7 @@ def run_case(c, module=None):
                 tgt = objs[op["obj"]]
                 for pn in op.get("via", []):
                     tgt = getattr(tgt, pn)
-                tgt.move(_buffer=bufs[op["buf"]])
+                tgt.move(_buffer=(ctxs[0].new_buffer(64) if op["buf"].startswith("N") else bufs[op["buf"]]))
             elif o == "raw_alloc":        # somebody else's allocation in the same buffer
                 raw = res.setdefault("_raw", {})
                 raw[op["name"]] = (op["buf"], int(bufs[op["buf"]].allocate(op["size"])), op["size"])
